@@ -57,6 +57,9 @@ def install_sockets():
             self._v_closed = False
             alive.add(self)
             emit('sock-new', id=self._v_id, family=int(self.family), from_fd=kw.get('fileno') is not None)
+            # a socket object may also go away without close() (dropped reference): record that as well
+            fin = weakref.finalize(self, emit, 'sock-gone', id=self._v_id)
+            fin.atexit = False
 
         def connect(self, addr):
             emit('connect', id=self._v_id, addr=list(addr[:2]), timeout=self.gettimeout())
